@@ -11,6 +11,7 @@ bool ops_misc(Ctx& c, const json& s, int idx, bool& handled) {
 		auto le = [](std::vector<unsigned char>& o, uint32_t v, int n) { for (int i = 0; i < n; ++i) o.push_back((unsigned char)(v >> (8 * i))); };
 		for (auto& a : s["clms"]) { std::vector<std::string> in; for (auto& m : a["members"]) { auto data = content(m["blob"]); std::vector<unsigned char> w; auto tag = [&](const char* t) { w.insert(w.end(), t, t + 4); }; tag("RIFF"); le(w, 36 + (uint32_t)data.size(), 4); tag("WAVE"); tag("fmt "); le(w, 16, 4); le(w, 1, 2); le(w, 1, 2); le(w, 22050, 4); le(w, 44100, 4); le(w, 2, 2); le(w, 16, 2); tag("data"); le(w, (uint32_t)data.size(), 4); w.insert(w.end(), data.begin(), data.end());
 				std::string p = src + "/" + Scen::str(m["name"]) + ".wav"; Scen::spit(p, w); in.push_back(p); } Archive::ClmFile::CreateArchive(root + "/" + Scen::str(a["file"]), in); }
+		if (s.contains("badRoots")) for (auto& b : s["badRoots"]) { const std::string br = root + "/" + Scen::str(b); if (!throws([&] { ResourceManager bad(br); })) { Proto::mismatch(site + "/construct", "accepted-should-refuse", where(br)); return false; } }
 		ResourceManager rm(root); auto loaded = rm.GetArchiveFilenames();
 		// the load order is an input: pick the specification's answers for the order the implementation reports
 		const json* ans = nullptr; for (auto& A : s["answers"]) { bool same = A["order"].size() == loaded.size(); for (std::size_t i = 0; same && i < loaded.size(); ++i) same = fs::path(loaded[i]).filename().string() == Scen::str(A["order"][i]); if (same) { ans = &A; break; } }
@@ -31,6 +32,35 @@ bool ops_misc(Ctx& c, const json& s, int idx, bool& handled) {
 			if (!cmpList(rm.GetAllFilenamesOfType(ext, true), (*ans)["types"][ti]["withArch"], "GetAllFilenamesOfType", "extension '" + ext + "'")) return false;
 			if (!cmpList(rm.GetAllFilenamesOfType(ext, false), (*ans)["types"][ti]["noArch"], "GetAllFilenamesOfType", "extension '" + ext + "' loose only")) return false; }
 		if (!cmpList(rm.GetAllFilenamesOfType(".txt"), (*ans)["txt"], "GetAllFilenamesOfType")) return false; if (!cmpList(rm.GetAllFilenamesOfType(".txt", false), (*ans)["txtLoose"], "GetAllFilenamesOfType")) return false; if (!cmpList(rm.GetAllFilenamesOfType(".map"), (*ans)["map"], "GetAllFilenamesOfType")) return false;
+		return true; }
+	// ---- beyond the listed properties: the lexical model of the path helpers (spec/XPaths.tla) and the list helpers of StringUtility --------
+	if (op == "xpaths") { const std::string p = Scen::str(s["path"]);
+		static const bool tsFlavour = XFile::GetFileExtension(".h") == ".h";       // which path library the code was built against (see spec/XPaths.tla)
+		if (s["ts"].get<bool>() != tsFlavour) return true;
+		auto chk = [&](const std::string& what, const std::string& got, const json& want) { if (got != Scen::str(want)) { Proto::mismatch(site + "/" + what, "value", where("'" + p + "' -> '" + got + "' want '" + Scen::str(want) + "'")); return false; } return true; };
+		auto guarded = [&](const std::string& what, const std::function<std::string()>& f, const json& want) { std::string got; try { got = f(); } catch (const std::exception& e) { Proto::mismatch(site + "/" + what, "refused-should-accept", where("'" + p + "': " + e.what())); return false; } return chk(what, got, want); };
+		if (!guarded("GetFileExtension", [&] { return XFile::GetFileExtension(p); }, s["ext"])) return false;
+		if (!guarded("GetFilename", [&] { return XFile::GetFilename(p); }, s["filename"])) return false;
+		if (!guarded("GetDirectory", [&] { return XFile::GetDirectory(p); }, s["directory"])) return false;
+		if (XFile::IsRootPath(p) != s["rooted"].get<bool>() || XFile::HasRootComponent(p) != s["rooted"].get<bool>()) { Proto::mismatch(site + "/IsRootPath", "value", where(p)); return false; }
+		for (auto& c : s["replace"]) if (!guarded("ReplaceFilename", [&] { return XFile::ReplaceFilename(p, Scen::str(c["arg"])); }, c["v"])) return false;
+		for (auto& c : s["appendName"]) if (!guarded("AppendToFilename", [&] { return XFile::AppendToFilename(p, Scen::str(c["arg"])); }, c["v"])) return false;
+		for (auto& c : s["appendSub"]) if (!guarded("AppendSubDirectory", [&] { return XFile::AppendSubDirectory(p, Scen::str(c["arg"])); }, c["v"])) return false;
+		for (auto& c : s["changeExt"]) if (!guarded("ChangeFileExtension", [&] { return XFile::ChangeFileExtension(p, Scen::str(c["arg"])); }, c["v"])) return false;
+		for (auto& c : s["matches"]) if (XFile::ExtensionMatches(p, Scen::str(c["arg"])) != c["v"].get<bool>()) { Proto::mismatch(site + "/ExtensionMatches", "value", where("'" + p + "' against '" + Scen::str(c["arg"]) + "'")); return false; }
+		for (auto& c : s["absolute"]) if (!guarded("MakeAbsolute", [&] { return XFile::MakeAbsolute(p, Scen::str(c["arg"])); }, c["v"])) return false;
+		return true; }
+	if (op == "xstrings") { std::vector<std::string> L, R, want; for (auto& x : s["list"]) L.push_back(Scen::str(x)); for (auto& x : s["removal"]) R.push_back(Scen::str(x)); for (auto& x : s["removed"]) want.push_back(Scen::str(x));
+		const std::string needle = Scen::str(s["needle"]);
+		if (StringUtility::RemoveStrings(L, R) != want) { Proto::mismatch(site + "/RemoveStrings", "value", where("")); return false; }
+		if (StringUtility::ContainsStringCaseInsensitive(L, needle) != s["contains"].get<bool>()) { Proto::mismatch(site + "/ContainsStringCaseInsensitive", "value", where(needle)); return false; }
+		if (StringUtility::ConvertToUpper(needle) != Scen::str(s["upper"])) { Proto::mismatch(site + "/ConvertToUpper", "value", where(needle)); return false; }
+		{ std::string u = needle; StringUtility::ConvertToUpperInPlace(u); if (u != Scen::str(s["upper"])) { Proto::mismatch(site + "/ConvertToUpperInPlace", "value", where(needle)); return false; } }
+		if (StringUtility::ContainsNonAsciiChars(needle) != s["nonAscii"].get<bool>()) { Proto::mismatch(site + "/ContainsNonAsciiChars", "value", where(needle)); return false; }
+		// four-character tags: construction from a literal, comparison, conversion, concatenation, streaming
+		{ const Tag t("ABCD"); std::ostringstream os; os << t; if (!(t == Tag("ABCD")) || t != Tag("ABCD") || t == Tag("ABCE") || !(t != Tag("abcd")) || static_cast<std::string>(t) != "ABCD" || ("x" + t) != "xABCD" || (std::string("y") + t) != "yABCD" || os.str() != "ABCD" || !(MakeTag("ABCD") == t))
+			{ Proto::mismatch(site + "/Tag", "value", where("")); return false; } }
+		if (StringUtility::StringFrom(true) != "true" && StringUtility::StringFrom(true) != "1") { Proto::mismatch(site + "/StringFrom", "value", where("")); return false; }
 		return true; }
 	if (op == "names_rel") { for (auto& p : s["pairs"]) { const std::string a = Scen::str(p["a"]), b = Scen::str(p["b"]); bool less = StringUtility::IsEqualCaseInsensitive(a, b), eq = StringUtility::IsEqual(a, b);
 			if (less != p["less"].get<bool>()) { Proto::mismatch(site + "/comes-before", "value", where("'" + a + "' < '" + b + "' is " + std::to_string(less))); return false; }
